@@ -22,14 +22,22 @@ static Fields gen(Tape &t) {
   // in a quarter of the cases the k-th allocation of the final step fails once: a failing make-owner / normalisation
   // must leave the caller's texts and the other objects alone just like a successful one
   f.seti("fault", t.chance(3, 4) ? 0 : t.range(1, 8));
+  // and in one history out of five the k-th allocation of every resolve / create-reference / normalise / make-owner step
+  // before the final one fails once as well: read-only operands and the caller's texts must survive those, too
+  f.seti("stepfault", t.chance(4, 5) ? 0 : t.range(1, 6));
   return f;
 }
 
-template <class A> static Verdict run(const std::vector<Op> &ops, int fault, bool *nontrivial, std::string *desc) {
+template <class A> static Verdict run(const std::vector<Op> &ops, int fault, int stepfault, bool *nontrivial, std::string *desc) {
   World<A> w;
   w.audit = true;
+  LibcLedger &LL = libc_ledger();
+  struct Off { LibcLedger &l; ~Off() { l.fail_at = 0; } } off{LL};
   for (size_t k = 0; k + 1 < ops.size(); k++) {
+    LL.fail_at = 0;
+    if (stepfault > 0 && strchr("RBNO", ops[k].kind)) { LL.req = 0; LL.fail_at = (uint64_t)stepfault; }
     w.exec(ops[k]);
+    LL.fail_at = 0;
     stats().sub_evaluations++;
     if (!w.auditError.empty()) return Verdict::fail(std::string(A::name()) + ": op " + std::to_string(k) + " (" + ops[k].str() + "): " + w.auditError);
   }
@@ -47,7 +55,7 @@ template <class A> static Verdict run(const std::vector<Op> &ops, int fault, boo
   std::string textBefore;
   VF_REQUIRE(to_string<A>(U.uri, &textBefore), "%s: uriToString failed before the final step", A::name());
   Op f2 = fin; f2.i = u;
-  LibcLedger &L = libc_ledger();
+  LibcLedger &L = LL;
   if (fault > 0) { L.req = 0; L.fail_at = (uint64_t)fault; }
   typename World<A>::Res r = w.exec(f2);
   bool bit = fault > 0 && L.req >= (uint64_t)fault;
@@ -104,10 +112,12 @@ static Verdict check(const Fields &f) {
   for (auto &op : ops) if (op.kind == 'P' && !uriref_matcher().matches(op.text)) return Verdict::discard();
   bool nt = false; std::string d;
   int fault = (int)f.geti("fault");
-  Verdict v = run<Api<char>>(ops, fault, &nt, &d);
+  int stepfault = (int)f.geti("stepfault");
+  Verdict v = run<Api<char>>(ops, fault, stepfault, &nt, &d);
   if (v.kind != Verdict::PASS) return v;
   bool nt2 = false; std::string d2;
-  v = run<Api<wchar_t>>(ops, fault, &nt2, &d2);
+  v = run<Api<wchar_t>>(ops, fault, stepfault, &nt2, &d2);
+  if (stepfault) stats().hit("histories_with_step_faults");
   if (v.kind != Verdict::PASS) return v;
   if (nt) stats().nontrivial(f.text(), d);
   return Verdict::pass();
